@@ -338,6 +338,9 @@ struct St {
     last: Option<Blocks>,
     /// patch bytes of the last buildp line
     patch: Option<Vec<u8>>,
+    /// run the lines on the real code (the oracle needs the state) but do not write them to the
+    /// request stream: pairs on which the list-based model would take minutes (quick tier only)
+    quiet: bool,
 }
 
 /// request-side byte string: a reference when the bytes ARE the referenced thing, else hex
@@ -521,7 +524,7 @@ fn apply_resp(r: Result<Vec<u8>, String>) -> String {
 fn emit(s: &mut Session, st: &mut St, req: String) -> String {
     let toks: Vec<&str> = req.split(' ').collect();
     let r = run_line(st, &toks).unwrap_or_else(|| "bad-op".into());
-    s.line(&req, &r);
+    if !st.quiet { s.line(&req, &r); }
     r
 }
 
@@ -556,6 +559,10 @@ struct Ctx<'a> {
     /// fewer K lines per builder (the oracle still runs every patcher / buffer size on the real
     /// code): for pairs whose thousands of control entries make the list-based model slow
     klight: bool,
+    /// how many of `bufs` (from the front) get `apply stream` K lines / `applyp stream` K lines on
+    /// LARGE pairs; the oracle runs all of `bufs`
+    kstream: usize,
+    kpstream: usize,
 }
 
 /// oracle failure of a pair; large pairs stop recording after a few failures (each replay carries
@@ -654,7 +661,8 @@ fn pair(cx: &mut Ctx, rng: &mut Rng, old: &[u8], new: &[u8], blks: &[usize], lab
         for m in modes {
             // K line: the Lean apply over the same blocks is the independent bspatch
             let areq = format!("apply {} {} {} {} {}", mode_txt(m), enc(&cx.st, &craw), enc(&cx.st, &b.diff), enc(&cx.st, &b.extra), b.out);
-            if !cx.klight || m == Mode::Mem || m == Mode::Stream(cx.bufs[0]) {
+            let k_line = match m { Mode::Mem => true, Mode::Stream(bf) => cx.bufs.iter().position(|x| *x == bf).map_or(true, |i| i < if cx.klight { 1 } else if big { cx.kstream } else { usize::MAX }) };
+            if k_line {
                 emit(s, &mut cx.st, areq.clone());
             }
             // O: on the patch BYTES the builder returned
@@ -698,12 +706,12 @@ fn pair(cx: &mut Ctx, rng: &mut Rng, old: &[u8], new: &[u8], blks: &[usize], lab
         let ptxt = enc(&cx.st, &patch);
         emit(s, &mut cx.st, format!("applyp mem {ptxt}{zt}"));
         s.tally("bytes.applyp");
-        let pbufs: Vec<usize> = if cx.klight { vec![] } else if big { cx.bufs.clone() } else { vec![cx.bufs[0]] };
+        let pbufs: Vec<usize> = if cx.klight { vec![] } else if big { cx.bufs.iter().copied().take(cx.kpstream).collect() } else { vec![cx.bufs[0]] };
         for pb in pbufs {
             emit(s, &mut cx.st, format!("applyp stream {pb} {ptxt}{zt}"));
             s.tally("bytes.applyp");
         }
-        if !cx.klight && (big || rng.chance(1, 8)) {
+        if !cx.klight && rng.chance(1, if big && cx.kpstream > 1 { 1 } else if big { 4 } else { 8 }) {
             emit(s, &mut cx.st, format!("hdr {ptxt}"));
             emit(s, &mut cx.st, format!("container {ptxt}"));
             s.tally("bytes.container-intact");
@@ -961,7 +969,8 @@ fn splice(old: &[u8], at: usize, del: usize, ins: &[u8]) -> Vec<u8> {
 fn large_blocks(cx: &mut Ctx, rng: &mut Rng, thorough: bool) {
     let saved = (cx.bufs.clone(), cx.mutate);
     cx.mutate = false;
-    cx.bufs = if thorough { vec![1024, 4096, 65536, 1, 16384, 1 << 20] } else { vec![1024, 4096, 65536] };
+    cx.bufs = if thorough { vec![1024, 65536, 4096, 1, 16384, 1 << 20] } else { vec![1024, 65536, 4096] };
+    if !thorough { cx.kstream = 2; cx.kpstream = 1; }
 
     // boundary sweep: an incompressible extra block of n bytes around 16 / 32 / 64 KiB, small old
     let all = [16383usize, 16384, 16385, 32740, 32757, 32767, 32768, 32769, 32800, 49152, 65535, 65536, 65537];
@@ -1012,7 +1021,7 @@ fn large_blocks(cx: &mut Ctx, rng: &mut Rng, thorough: bool) {
         for _ in 0..3 { let at = n - 1 - rng.below(n as u64 / 10) as usize; new[at] = new[at].wrapping_add(1 + rng.below(200) as u8); }
         let new = if rng.chance(1, 2) { splice(&new, n - 40, 7, b"") } else { new };
         cx.sblks = vec![*rng.pick(&[1usize, 2, 4, 8, 16, 32])];
-        let cb = *rng.pick(&[64usize, 1 << 20]);
+        let cb = *rng.pick(&[4096usize, 1 << 20]);
         pair(cx, rng, &old, &new, &[cb], "large.diff-compressible");
     }
     // compressible EXTRA block: a 200 KB run / periodic / dictionary-word insertion
@@ -1035,7 +1044,7 @@ fn large_blocks(cx: &mut Ctx, rng: &mut Rng, thorough: bool) {
     // large CONTROL block: new = thousands of short slices of old in random order (one control
     // entry with a random seek each: the control block itself exceeds 32 KiB compressed)
     {
-        let m = if thorough { 9_000 } else { 5_000 };
+        let m = if thorough { 9_000 } else { 7_500 };
         let old = rng.bytes(66_000);
         let mut new = Vec::with_capacity(m * 16);
         for _ in 0..m {
@@ -1045,23 +1054,75 @@ fn large_blocks(cx: &mut Ctx, rng: &mut Rng, thorough: bool) {
             let x = rng.below(4) as usize;
             new.extend(rng.bytes(x));
         }
-        cx.sblks = if thorough { vec![*rng.pick(&SBLKS)] } else { vec![] };
-        cx.klight = !thorough;
+        // (quick tier: oracle only — the model needs minutes for 7000 entries over 66 KB lists; the
+        //  thorough tier runs the K lines too)
+        cx.sblks = vec![*rng.pick(&SBLKS)];
+        cx.klight = true;
+        cx.st.quiet = !thorough;
         pair(cx, rng, &old, &new, &[1 << 20], "large.many-entries");
+        cx.st.quiet = false;
         cx.klight = false;
+    }
+    // large control block, K: a hand-made consistent patch of thousands of tiny entries with seeks
+    // of up to 48 random bits (the stored control block exceeds 32 KiB) on a
+    // small old — cheap for the model, same path through from_compressed / decompress_zlib
+    {
+        let m = if thorough { 9000 } else { 4500 };
+        let old = rng.bytes(300);
+        let (mut ctl, mut diff, mut extra, mut total) = (vec![], vec![], vec![], 0i64);
+        for _ in 0..m {
+            let d = rng.below(4) as i64;
+            let e = rng.below(3) as i64;
+            // below 2^48 each: the position cannot reach usize::MAX (cfg assumption: no position overflow)
+            let sh = if rng.chance(1, 4) { rng.below(48) } else { 0 };
+            let mag = (rng.next() >> 16 >> sh) as i64;
+            let sk = if rng.chance(1, 2) { -mag } else { mag };
+            ctl.push((d, e, sk));
+            total += d + e;
+            diff.extend(rng.bytes(d as usize));
+            extra.extend(rng.bytes(e as usize));
+        }
+        let craw = ctl_bytes(&ctl);
+        let begin = format!("begin {} -", hex(&old));
+        emit(cx.s, &mut cx.st, begin.clone());
+        let zc = compress_zlib(&craw).expect("zlib").len();
+        cx.s.tally(&format!("block.control.compressed.{}", kib_bucket(zc)));
+        cx.s.tally(&format!("block.control.inflated.{}", kib_bucket(craw.len())));
+        cx.s.tally("pairs.large.hand-made-control-block");
+        let p = make_patch(&craw, &diff, &extra, total);
+        let mut mem: Option<Result<Vec<u8>, String>> = None;
+        for md in [Mode::Mem, Mode::Stream(1024), Mode::Stream(65536)] {
+            let areq = format!("apply {} {} {} {} {total}", mode_txt(md), hex(&craw), hex(&diff), hex(&extra));
+            emit(cx.s, &mut cx.st, areq.clone());
+            let got = apply(md, &old, &p);
+            if let Ok(v) = &got {
+                if v.len() as i64 != total {
+                    cx.s.oracle_fail("ok-length:large-control", &format!("Ok output of {} bytes, header says {total}", v.len()), &[begin.clone(), areq.clone()]);
+                }
+            }
+            match &mem {
+                None => mem = Some(got.clone()),
+                Some(mr) => if *mr != got {
+                    cx.s.oracle_fail("patchers-disagree", &format!("hand-made patch with {m} control entries: memory {:?} vs {} {:?}", mr.as_ref().map(|v| v.len()), mode_txt(md), got.as_ref().map(|v| v.len())), &[begin.clone(), areq.clone()]);
+                }
+            }
+            cx.s.case(Some(&format!("bigctl|{}|{}", mode_txt(md), fnv1a(&craw))));
+        }
     }
     cx.sblks = vec![];
     cx.bufs = saved.0;
     cx.mutate = saved.1;
+    cx.kstream = usize::MAX;
+    cx.kpstream = usize::MAX;
 }
 
 fn main() {
     let args = Args::parse();
     quiet_panics();
     let mut s = Session::new(&args.out);
-    s.rule = "every (old,new) over {a,b} with both lengths <= L (L=4 quick, 6 thorough) x {simple, chunked blk in {0,1,4,64}, suffix} x {memory, streaming buf 1024[,4096]}; seeded random pairs to 4 KiB (edits: insert/delete/move/repeat/replace/point, empty old, empty new, equal, unrelated; alphabets 2, 4, 256) incl. a dedicated stream whose change is followed by >= 264 unchanged bytes with the inserted length a multiple of 256 or a periodic tail (the only way the chunked builder re-synchronises after an extra run), match runs of length 3/4/5 around the >=4 threshold, block sizes around the match length; mutated patches (sizes +-1, truncated blocks, seeks before 0 / beyond EOF / saturating, dropped / appended / invalid / partial control records) for the length clause. every built patch also as WHOLE BYTES (buildp: model-assembled header + framing vs the builder's bytes; applyp through apply_patch_memory and parse_from_patch + apply_patch_from_data) and through a short-reading old source (read() returns <= 1 / 1,2,3 / 7,1 / three random sizes / unbounded bytes per call); byte-level damage of real patches (header truncated at 0..31, body truncated, signature bit, each size field set to -1 / 0 / +-1 / 1e9 / 1e9+1 / i64::MIN / i64::MAX / the bytes available, sizes swapped, diff swallowing the extra block, trailing garbage, body bit flip) for the length clause on bytes and memory == streaming; hand-made headers around every validate comparison; the private offtout / offtin at i64::MIN, MIN+1, MAX, +-0, +-2^56, +-2^62 and random magnitudes of every bit length; unseekable source; default buffer. non-trivial = built patch has a diff run or >= 2 control entries (or is a mutated patch / codec value / header probe; short-read cases need a non-empty old); distinct = (builder, patcher, old, new) text".into();
+    s.rule = "every (old,new) over {a,b} with both lengths <= L (L=4 quick, 6 thorough) x {simple, chunked blk in {0,1,4,64}, suffix, suffix under max_diff_block_size 1 / 2 [/ 3]} x {memory, streaming buf 1024[,4096]}; the SUFFIX builder under a configured max_diff_block_size on every generated pair (1-2 sizes from {1,2,3,4,7,8,16,32} / {0,1,2,5,64,256,2^20,usize::MAX}) and a dedicated stream of equal runs of 21/24/28/32/48/64/96 bytes (exact multiples >= 2x of the block sizes, and not) followed by a deletion / insertion / replacement / move / repeat / two deletions / changed run, each under ALL of {1,2,3,4,7,8,16,32} (+ 0 / usize::MAX); LARGE BLOCKS (quick: one pair per family; thorough: 40 KB / 70 KB / 200 KB each): incompressible extra block of 16383..65537 bytes around the 16 / 32 / 64 KiB boundaries (3 sizes quick, 13 thorough), 40 000 noise bytes appended / prepended / inserted, 70 144 (thorough 200 192 = 256k) noise bytes inserted, incompressible diff block (every 3rd byte of 96 000 noise bytes changed; thorough also 160 000 / 4th, 200 000 / 8th), compressible diff block (70 000 [200 000] noise bytes with 3 point edits), compressible extra block (204 800 bytes: one byte / periodic / dictionary words [/ 4-letter noise]), 200 000 unrelated noise bytes, 7 500 [9 000] control entries (control block > 32 KiB as stored; quick: oracle only, thorough: also K) and a hand-made consistent patch of 4 500 [9 000] entries with 48-bit seeks (K + length clause) — through every builder, the memory patcher and streaming buffers 1024 / 65536 / 4096 [/ 1 / 16384 / 2^20] (quick: K lines for memory + 1024 + 65536, oracle on all), with blocks of >= 4096 bytes written as references (@c @d @e @p @zc @zd @ze, @sa) on request lines and byte strings of >= 16384 bytes answered as length + FNV-1a 64; seeded random pairs to 4 KiB (edits: insert/delete/move/repeat/replace/point, empty old, empty new, equal, unrelated; alphabets 2, 4, 256) incl. a dedicated stream whose change is followed by >= 264 unchanged bytes with the inserted length a multiple of 256 or a periodic tail (the only way the chunked builder re-synchronises after an extra run), match runs of length 3/4/5 around the >=4 threshold, block sizes around the match length; mutated patches (sizes +-1, truncated blocks, seeks before 0 / beyond EOF / saturating, dropped / appended / invalid / partial control records) for the length clause. every built patch also as WHOLE BYTES (buildp: model-assembled header + framing vs the builder's bytes; applyp through apply_patch_memory and parse_from_patch + apply_patch_from_data) and through a short-reading old source (read() returns <= 1 / 1,2,3 / 7,1 / three random sizes / unbounded bytes per call); byte-level damage of real patches (header truncated at 0..31, body truncated, signature bit, each size field set to -1 / 0 / +-1 / 1e9 / 1e9+1 / i64::MIN / i64::MAX / the bytes available, sizes swapped, diff swallowing the extra block, trailing garbage, body bit flip) for the length clause on bytes and memory == streaming; hand-made headers around every validate comparison; the private offtout / offtin at i64::MIN, MIN+1, MAX, +-0, +-2^56, +-2^62 and random magnitudes of every bit length; unseekable source; default buffer. non-trivial = built patch has a diff run or >= 2 control entries (or is a mutated patch / codec value / header probe; short-read cases need a non-empty old); distinct = (builder, patcher, old, new) text".into();
     let mut rng = Rng::new(args.seed);
-    let mut st = St { old: vec![], new: vec![], last: None, patch: None };
+    let mut st = St { old: vec![], new: vec![], last: None, patch: None, quiet: false };
 
     if let Some(p) = &args.replay {
         // a replay file holds request lines; re-evaluate the oracle on what they describe
@@ -1137,7 +1198,7 @@ fn main() {
 
     let thorough = args.thorough();
     let bufs = if thorough { vec![1024, 4096, 1] } else { vec![1024] };
-    let mut cx = Ctx { s: &mut s, st, bufs, mutate: true, sblks: vec![], big_replays: 6, klight: false };
+    let mut cx = Ctx { s: &mut s, st, bufs, mutate: true, sblks: vec![], big_replays: 6, klight: false, kstream: usize::MAX, kpstream: usize::MAX };
 
     // 1. exhaustive over {a,b}
     let lmax = if thorough { 6 } else { 4 };
